@@ -458,6 +458,32 @@ pub fn deep_stream_families(set2: bool, thorough: bool) -> (Vec<Vec<u8>>, (usize
             }
         }
     }
+    // G1g: burst cycles (c1^a c2^b)^30 over make/break forms of 10 keys and 14 error cells
+    {
+        let mut cells: Vec<Vec<u8>> = Vec::new();
+        for k in [KeyCode::A, KeyCode::LShift, KeyCode::ArrowUp, KeyCode::Numpad8, KeyCode::RControl, KeyCode::LControl, KeyCode::RAltGr, KeyCode::Home, KeyCode::Numpad7, KeyCode::CapsLock] {
+            cells.push(enc(k, KeyState::Down));
+            cells.push(enc(k, KeyState::Up));
+        }
+        for c in [vec![0x00u8], vec![0xFF], vec![0xFA], vec![0xAA], vec![0x02], vec![0x7F], vec![0xE0, 0x00], vec![0xE0, 0x02], vec![0xE0, 0xFF], vec![0xE1, 0x00], vec![0xE0], vec![0xE1], vec![0xF3], vec![0x80]] {
+            cells.push(c);
+        }
+        for a in &cells {
+            for b in &cells {
+                if a == b { continue; }
+                for (na, nb) in [(2usize, 1usize), (3, 1), (4, 2), (5, 1), (8, 3), (1, 2), (2, 2), (16, 1)] {
+                    let mut v = Vec::new();
+                    for _ in 0..30 {
+                        for _ in 0..na { v.extend(a); }
+                        for _ in 0..nb { v.extend(b); }
+                    }
+                    v.extend(enc(KeyCode::Q, KeyState::Down));
+                    v.extend(enc(KeyCode::ArrowUp, KeyState::Down));
+                    fam.push(v);
+                }
+            }
+        }
+    }
     let g1e = fam.len() - g1a - g1b - g1d;
     (fam, (g1a, g1b, g1d, g1e))
 }
@@ -535,7 +561,7 @@ fn deep_streams<M: RefModel>(run: &mut Run, mtab: &[Vec<(Out, usize)>], ctxs: &[
         eval_stream::<M>(run, v);
     }
     run.total_violating_cases += (bad.len() + bad_pairs.len()).saturating_sub(10) as u64;
-    run.part("deep_history_families", json!({"A^700.B^j.tail": g1a, "A.s.A^2500": g1b, "X.F^n.P(wrap probes, n around 2^8 / 2^16)": g1d, "(A^p.B)^m two-scale periodic + long typing sessions (own and other set encoding)": g1e, "cells": cells.len(), "(c1.c2)^24 pairs": cells.len() * cells.len(), "failing": bad.len() + bad_pairs.len()}));
+    run.part("deep_history_families", json!({"A^700.B^j.tail": g1a, "A.s.A^2500": g1b, "X.F^n.P(wrap probes, n around 2^8 / 2^16)": g1d, "(A^p.B)^m two-scale periodic + long typing sessions (own and other set encoding) + burst cycles (c1^a c2^b)^30": g1e, "cells": cells.len(), "(c1.c2)^24 pairs": cells.len() * cells.len(), "failing": bad.len() + bad_pairs.len()}));
 }
 
 /// byte patterns that are repeated tens of thousands of times
